@@ -19,7 +19,19 @@ LEVEL = 'other'
 
 def ret_canon(db, f, roles=None, inline=None):
     S = [s for s in fwd.summarize(f, db=db, roles=roles or {}, inline_pred=inline, no_forward=True) if s.end == 'return']
-    return [s.ret for s in S], S
+    rets = [s.ret for s in S]
+    # two paths that return the same expression over the larger of two operands (a ternary / if-else spelling of max, in any
+    # orientation) are folded into one expression over MAX(a,b)
+    if len(S) == 2 and len(S[0].conds) == 1 and len(S[1].conds) == 1 and S[0].conds[0][0] == S[1].conds[0][0] and S[0].conds[0][1] != S[1].conds[0][1]:
+        c = S[0].conds[0][0]
+        m = re.match(r'^\((.+) (<|<=) (.+)\)$', c)
+        if m and rets[0] and rets[1]:
+            a, b = m.group(1), m.group(3)
+            st, sf = (S[0], S[1]) if S[0].conds[0][1] else (S[1], S[0])
+            M = 'MAX(%s)' % ','.join(sorted([a, b]))
+            if M in st.ret.replace(b, M) and _same_tokens(st.ret.replace(b, M), sf.ret.replace(a, M)):
+                return [st.ret.replace(b, M)], S
+    return rets, S
 
 
 def norm_roundup(c):
